@@ -549,4 +549,65 @@ vj::Value run_case(const vj::Value& c)
   return vh::ok();
 }
 
-int main(int argc, char** argv) { return vh::main_loop(argc, argv); }
+// Replay loop with the protocol of vh::main_loop (B <k> / R <k> <json>), but hardened against silent heap corruption:
+// a defective conversion may write past the end of its arrays without failing at once.  All cases are read before the
+// first one runs and every temporary of a case is destroyed BEFORE its `R k` line is printed, so that between `R k` and
+// `B k+1` nothing touches the heap: a corruption left behind by case k then surfaces inside the journalled window of a
+// case (which the check re-runs alone in a fresh process) and never as "died outside a case".
+int main(int argc, char** argv)
+{
+  std::string file; long start = 0, only = -1; unsigned tmo = 20;
+  for(int k = 1; k < argc; ++k)
+  {
+    std::string a(argv[k]);
+    if(a == "--cases" && k + 1 < argc) file = argv[++k];
+    else if(a == "--start" && k + 1 < argc) start = std::atol(argv[++k]);
+    else if(a == "--only" && k + 1 < argc) only = std::atol(argv[++k]);
+    else if(a == "--timeout" && k + 1 < argc) tmo = (unsigned)std::atol(argv[++k]);
+  }
+  if(file.empty()) { std::fprintf(stderr, "usage: %s --cases FILE [--start K] [--only K]\n", argv[0]); return 2; }
+  static std::vector<std::pair<long, std::string>> todo;
+  {
+    std::ifstream in(file);
+    if(!in) { std::fprintf(stderr, "cannot open %s\n", file.c_str()); return 2; }
+    std::string line; long k = -1;
+    while(std::getline(in, line))
+    {
+      if(line.empty()) continue;
+      ++k;
+      if(k < start || (only >= 0 && k != only)) continue;
+      todo.emplace_back(k, line);
+    }
+  }
+  std::signal(SIGALRM, vh::on_alarm);
+  { int ac = 1; char* av[] = { argv[0], nullptr }; char** avp = av; FEAT::Runtime::initialize(ac, avp); }
+  static std::string out;
+  for(std::size_t t = 0; t < todo.size(); ++t)
+  {
+    const long k = todo[t].first;
+    std::printf("B %ld\n", k); std::fflush(stdout);
+    ::alarm(tmo);
+    {
+      vj::Value res;
+      try
+      {
+        vj::Value c = vj::parse(todo[t].second);
+        res = run_case(c);
+      }
+      catch(const std::exception& e)
+      {
+        res = vh::bad(std::string("uncaught exception ") + typeid(e).name() + ": " + e.what());
+        res["outcome"] = "exception";
+      }
+      catch(...)
+      {
+        res = vh::bad("uncaught non-standard exception"); res["outcome"] = "exception";
+      }
+      out = vj::dump(res);
+    }
+    ::alarm(0);
+    std::printf("R %ld %s\n", k, out.c_str()); std::fflush(stdout);
+  }
+  std::fflush(stdout);
+  ::_exit(0); // skip static destruction / Runtime::finalize (as vh::main_loop does)
+}
